@@ -816,7 +816,10 @@ class _Run:
         if not self.out.violations:
             if rx:
                 loop.call_soon(self.rx_read)     # a read after the last update starts the evaluation for the current input
-            budget = 400
+            # progress bound once faults have stopped: proportional to the work the history set going (every evaluation that was
+            # started runs to its end or to its cancellation point; a fixed bound was exceeded by a history of 13 source changes
+            # over four bound generators - 1 run in 10^6 - that did finish), so that only a loop that never quiesces exceeds it
+            budget = cap = 400 + 20 * len(self.out.log)
             while budget > 0:
                 budget -= 1
                 progressed = loop.step()
@@ -832,7 +835,7 @@ class _Run:
                     break
             self.log("QUIESCENT" if budget > 0 else "STEP-CAP")
             if budget <= 0:
-                self.violate('C10.liveness', 'loop still busy 400 steps after the last operation and fault')
+                self.violate('C10.liveness', f'loop still busy {cap} steps after the last operation and fault')
             else:
                 pend = [t for t in asyncio.all_tasks(loop) if not t.done()]
                 if pend:
